@@ -1289,6 +1289,18 @@ def simp(v):
             and v[1][3][0][0] is not None and v[1][3][0][0][0] == "bv":
         tg, it, _ = v[1][3][0]
         return simp(("comp", "list", v[1][2], ((tg, ("sub", it, v[2]), ()),)))
+    # ... and one element of it is the element expression at that position: [f(x) for x in L][k] == f(L[k])  (also when the
+    # comprehension is destructured: `a, *mid, z = [f(x) for x in L]`)
+    if k in ("sub", "item") and v[1][0] == "comp" and v[1][1] == "list" and len(v[1][3]) == 1 and not v[1][3][0][2] \
+            and v[1][3][0][0] is not None and v[1][3][0][0][0] == "bv":
+        tg, it, _ = v[1][3][0]
+        pos = v[2]
+        if k == "sub" and ((pos[0] == "const" and type(pos[1]) is int) or (pos[0] == "unop" and pos[1] == "USub" and pos[2][0] == "const" and type(pos[2][1]) is int)):
+            return simp(subst(v[1][2], {tg: ("sub", it, pos)}))
+        if k == "item" and isinstance(pos, int):
+            return simp(subst(v[1][2], {tg: ("item", it, pos)}))
+        if k == "item" and isinstance(pos, tuple) and pos and pos[0] == "star":
+            return simp(("comp", "list", v[1][2], ((tg, ("item", it, pos), ()),)))
     # "ab" * 3
     if k == "binop" and v[1] == "Mult" and {v[2][0], v[3][0]} == {"const"}:
         a, b = v[2][1], v[3][1]
